@@ -103,6 +103,13 @@ def fixed_programs():
         for start in (nrows - 1, nrows, nrows + 1):
             w = ("un", ("slice", start, start + 2), mp.DEFAULT, lf)
             out += [w, ("un", ("proj", []), mp.DEFAULT, w), ("un", ("slice", start, None), mp.DEFAULT, ("un", ("proj", [a]), mp.DEFAULT, lf))]
+        # the SAME relation object in two branches of a tree (one leaf id is one object): as it is in one branch, below an
+        # operation that empties it in the other
+        empties = [("sel", ("plit", False)), ("slice", nrows + 2, None), ("slice", 0, 0), ("sel", ("cmp", "gt", ("ref", a), ("lit", 99)))]
+        for e in empties:
+            gone = ("un", e, mp.DEFAULT, lf)
+            out += [("chain", lf, gone), ("chain", gone, lf), ("chain", ("un", ("sel", ("cmp", "ge", ("ref", a), ("lit", 0))), mp.DEFAULT, lf), gone),
+                    ("chain", ("chain", gone, lf), gone)]
     return out
 
 
